@@ -1759,7 +1759,9 @@ find_reg(const RegisterTable *t,
     struct maybe_register rv = { .valid = true, .handle = 0 };
 
     for (RegisterHandle i = first; i <= last; i++) {
-        if (reg_range_touches(t->entry + i, addr, 1u) == 0) {
+        /* The first register that is not entirely below addr: addr may
+         * lie in a gap between registers or in a memory hole. */
+        if (reg_range_touches(t->entry + i, addr, 1u) >= 0) {
             rv.handle = i;
             return rv;
         }
@@ -1848,14 +1850,15 @@ register_foreach_in(RegisterTable *t,
      */
     struct maybe_area startarea = find_area(t, 0, t->areas - 1u, addr);
     struct maybe_register startreg;
+    RegisterHandle first = 0u;
 
-    if (startarea.valid) {
-        const RegisterHandle first = t->area[startarea.handle].entry.first;
-        const RegisterHandle last = t->area[startarea.handle].entry.last;
-        startreg = find_reg(t, first, last, addr);
-    } else {
-        startreg = find_reg(t, 0, t->entries - 1u, addr);
+    if (startarea.valid && t->area[startarea.handle].entry.count > 0u) {
+        /* The registers of earlier areas lie entirely below addr. */
+        first = t->area[startarea.handle].entry.first;
     }
+    /* The range may extend beyond the area addr is in, and that area may
+     * not have a register at or above addr: search to the end of the table. */
+    startreg = find_reg(t, first, t->entries - 1u, addr);
 
     if (startreg.valid == false) {
         return rv;
